@@ -489,13 +489,19 @@ func tryReadTrailer(t *protocol.Trailer, r network.Reader, n int) error {
 }
 
 func parseTrailer(t *protocol.Trailer, buf []byte) (int, error) {
-	// Skip any 0 length chunk.
+	// Skip any 0 length chunk, i.e. exactly the line "0\r\n": a trailer field
+	// whose name merely starts with '0' is not a chunk.
+	skip := 0
 	if buf[0] == '0' {
-		skip := len(bytestr.StrCRLF) + 1
-		if len(buf) < skip {
-			return 0, io.EOF
+		zeroChunk := "0\r\n"
+		if len(buf) < len(zeroChunk) {
+			if string(buf) == zeroChunk[:len(buf)] {
+				return 0, errs.ErrNeedMore
+			}
+		} else if string(buf[:len(zeroChunk)]) == zeroChunk {
+			skip = len(zeroChunk)
+			buf = buf[skip:]
 		}
-		buf = buf[skip:]
 	}
 
 	var s HeaderScanner
@@ -517,7 +523,7 @@ func parseTrailer(t *protocol.Trailer, buf []byte) (int, error) {
 	if err != nil {
 		return 0, err
 	}
-	return s.HLen, nil
+	return skip + s.HLen, nil
 }
 
 // writeTrailer writes response trailer to w
